@@ -343,6 +343,85 @@ func baseOperands(op byte) []*uint256.Int {
 	return ops
 }
 
+type stdMemOp struct {
+	name  string
+	sweep int // number of swept operands
+	emit  func(a *h.Asm, v []*uint256.Int)
+}
+
+var stdOpBoundary = func() []*uint256.Int {
+	p := func(k uint) *uint256.Int { return new(uint256.Int).Lsh(h.U(1), k) }
+	return []*uint256.Int{h.U(0), h.U(1), h.U(31), h.U(32), h.U(33), h.U(64), h.U(65), h.U(1000), p(16), p(32), new(uint256.Int).Sub(p(64), h.U(1)), p(64), new(uint256.Int).Not(h.U(0))}
+}()
+
+var stdOpBoundarySmall = func() []*uint256.Int {
+	p := func(k uint) *uint256.Int { return new(uint256.Int).Lsh(h.U(1), k) }
+	return []*uint256.Int{h.U(0), h.U(1), h.U(33), h.U(64), h.U(1000), new(uint256.Int).Sub(p(64), h.U(1)), new(uint256.Int).Not(h.U(0))}
+}()
+
+// operands are pushed in the order given: the LAST one ends on top of the stack
+var stdMemOps = func() []stdMemOp {
+	push := func(a *h.Asm, v []*uint256.Int) {
+		for _, x := range v {
+			a.Push(x)
+		}
+	}
+	simple := func(name string, n int, op byte, pops bool) stdMemOp {
+		return stdMemOp{name, n, func(a *h.Asm, v []*uint256.Int) {
+			push(a, v)
+			a.Op(op)
+			if pops {
+				a.Op(h.POP)
+			}
+		}}
+	}
+	ops := []stdMemOp{
+		simple("KECCAK256(len,off)", 2, h.KECCAK256, true),
+		simple("MLOAD(off)", 1, h.MLOAD, true),
+		simple("MSTORE(val,off)", 2, h.MSTORE, false),
+		simple("MSTORE8(val,off)", 2, h.MSTORE8, false),
+		simple("CALLDATALOAD(off)", 1, h.CALLDATALOAD, true),
+		simple("CALLDATACOPY(len,src,dst)", 3, h.CALLDATACOPY, false),
+		simple("CODECOPY(len,src,dst)", 3, h.CODECOPY, false),
+		simple("RETURNDATACOPY(len,src,dst)", 3, h.RETURNDATACOPY, false),
+		simple("MCOPY(len,src,dst)", 3, h.MCOPY, false),
+		simple("RETURN(len,off)", 2, h.RETURN, false),
+		simple("REVERT(len,off)", 2, h.REVERT, false),
+		simple("LOG0(len,off)", 2, h.LOG0, false),
+		simple("CREATE(len,off,value)", 3, h.CREATE, true),
+		{"EXTCODECOPY(len,src,dst)", 3, func(a *h.Asm, v []*uint256.Int) { push(a, v); a.PushAddr(h.ContractAddr(0)).Op(h.EXTCODECOPY) }},
+		{"LOG2(len,off)", 2, func(a *h.Asm, v []*uint256.Int) { a.PushU(1).PushU(2); push(a, v); a.Op(h.LOG0 + 2) }},
+		{"CREATE2(len,off)", 2, func(a *h.Asm, v []*uint256.Int) { a.PushU(9); push(a, v); a.PushU(0).Op(h.CREATE2, h.POP) }},
+		{"RETURNDATACOPY after a call(len,src,dst)", 3, func(a *h.Asm, v []*uint256.Int) {
+			a.PushU(0).PushU(0).PushU(33).PushU(0).PushU(0).PushAddr(common.BytesToAddress([]byte{4})).PushU(50000).Op(h.CALL, h.POP)
+			push(a, v)
+			a.Op(h.RETURNDATACOPY)
+		}},
+	}
+	for _, k := range []byte{h.CALL, h.CALLCODE, h.DELEGATECALL, h.STATICCALL} {
+		kind := k
+		for _, tgt := range []common.Address{h.ContractAddr(1), common.BytesToAddress([]byte{4})} {
+			t := tgt
+			ops = append(ops, stdMemOp{fmt.Sprintf("call %#x to %s (outLen,outOff,inLen,inOff)", kind, t.Hex()[36:]), 4, func(a *h.Asm, v []*uint256.Int) {
+				push(a, v)
+				if kind == h.CALL || kind == h.CALLCODE {
+					a.PushU(0)
+				}
+				a.PushAddr(t).PushU(50000).Op(kind, h.POP)
+			}})
+		}
+	}
+	return ops
+}()
+
+func hexs(v []*uint256.Int) []string {
+	var out []string
+	for _, x := range v {
+		out = append(out, x.Hex())
+	}
+	return out
+}
+
 type hostileCase struct {
 	w    *h.World
 	env  h.EnvSpec
@@ -478,6 +557,44 @@ func genHostile(c Case, tier string) []hostileCase {
 					fmt.Sprintf("opcode %#x with %d small words on the stack, fork=%s", op, hgt, f), "allops", nil})
 			}
 		}
+	case "stdops":
+		// every standard instruction that takes memory offsets / lengths, its operands swept over boundary values
+		// under two memory shapes: the declared memory-size function has to cover what the implementation touches
+		f := h.Fork(c.P[0])
+		lo := stdMemOps[c.P[1]]
+		vals := stdOpBoundary
+		if lo.sweep >= 4 {
+			vals = stdOpBoundarySmall
+		}
+		idx := make([]int, lo.sweep)
+		for {
+			for shape := 0; shape < 2; shape++ {
+				a := h.NewAsm()
+				if shape == 1 {
+					a.Push(r.U256()).PushU(0).Op(h.MSTORE).Push(r.U256()).PushU(32).Op(h.MSTORE)
+				}
+				ops := make([]*uint256.Int, lo.sweep)
+				for i := range idx {
+					ops[i] = vals[idx[i]]
+				}
+				lo.emit(a, ops)
+				a.Op(h.STOP)
+				out = append(out, hostileCase{h.BaseWorld([][]byte{a.Bytes(), {h.STOP}}), h.EnvSpec{Fork: f}, []h.TxSpec{{Entry: h.ECall, From: h.Sender, To: h.ContractAddr(0), Gas: 400000, Input: []byte{1, 2, 3, 4, 5, 6, 7, 8, 9, 10, 11, 12, 13, 14, 15, 16, 17, 18, 19, 20, 21, 22, 23, 24, 25, 26, 27, 28, 29, 30, 31, 32, 33}}},
+					fmt.Sprintf("%s operands %v (top of stack last) memory shape %d fork=%s", lo.name, hexs(ops), shape, f), "stdops", nil})
+			}
+			k := 0
+			for k < len(idx) {
+				idx[k]++
+				if idx[k] < len(vals) {
+					break
+				}
+				idx[k] = 0
+				k++
+			}
+			if k == len(idx) {
+				break
+			}
+		}
 	case "jp":
 		// call trees with real Aspects bound and a failure at one join-point firing (every early-return path of the call routine)
 		sc, rr := jpScenario(c.Seed)
@@ -542,6 +659,11 @@ func hostileCases(seed uint64, tier string, salt uint64) []Case {
 				cs = append(cs, Case{Kind: "allops", P: []int64{int64(f), int64(chunk)}})
 			}
 		}
+		for _, f := range []h.Fork{h.Frontier, h.Byzantium, h.Shanghai, h.Cancun} {
+			for i := range stdMemOps {
+				cs = append(cs, Case{Kind: "stdops", P: []int64{int64(f), int64(i)}, Seed: h.Mix(seed, salt+5, uint64(f), uint64(i))})
+			}
+		}
 		// (C20's work counters would charge an Aspect's own execution to the neighbouring instruction)
 		for i := 0; i < nm/2; i++ {
 			cs = append(cs, Case{Kind: "jp", Seed: h.Mix(seed, salt+4, uint64(i))})
@@ -555,7 +677,7 @@ func init() {
 		ID:      "C03",
 		Level:   "exploration",
 		Hostile: true,
-		Rule: "hostile inputs run on a fully initialised host in address-space-capped worker processes that journal each case before executing it (a fatal error kills only the worker and is attributed to its case): kind raw = random byte strings as code (biased towards journal opcodes, calls to 0x64-0x66, boundary pushes) x random calldata x all forks Frontier..Cancun x all six entry points; kind jop = for each journal opcode every operand position swept over {0,1,31,32,33,255,2^16,2^31,2^32-1,2^32+1,2^63-1,2^63,2^64-1,2^64,2^128,2^255,2^256-1, memLen-33..memLen+1} plus random combinations, under memory shapes {empty,32,64,96,544 bytes with boundary length words} and storage shapes {empty, short, all-zero, long, invalid encodings, lengths 2^12..2^64-1}; kind pcall = every call kind to 0x64-0x66 from depth 1 and 3 with truncated / overflowing ABI payloads; kind mut = byte-mutated well-formed journal programs; kind allops = every opcode byte at stack heights 0..18, 1023, 1024 on Frontier and Cancun; kind jp = Aspect-bound call trees (real WASM Aspects incl. trapping and gas-exhausting ones) with a provider failure injected at a join-point firing. " +
+		Rule: "hostile inputs run on a fully initialised host in address-space-capped worker processes that journal each case before executing it (a fatal error kills only the worker and is attributed to its case): kind raw = random byte strings as code (biased towards journal opcodes, calls to 0x64-0x66, boundary pushes) x random calldata x all forks Frontier..Cancun x all six entry points; kind jop = for each journal opcode every operand position swept over {0,1,31,32,33,255,2^16,2^31,2^32-1,2^32+1,2^63-1,2^63,2^64-1,2^64,2^128,2^255,2^256-1, memLen-33..memLen+1} plus random combinations, under memory shapes {empty,32,64,96,544 bytes with boundary length words} and storage shapes {empty, short, all-zero, long, invalid encodings, lengths 2^12..2^64-1}; kind pcall = every call kind to 0x64-0x66 from depth 1 and 3 with truncated / overflowing ABI payloads; kind mut = byte-mutated well-formed journal programs; kind allops = every opcode byte at stack heights 0..18, 1023, 1024 on Frontier and Cancun; kind stdops = every standard instruction taking memory offsets/lengths (hash, loads/stores, the five copies incl. MCOPY, RETURN/REVERT, LOG, CREATE/CREATE2, the four calls) with all operands swept over {0,1,31,32,33,64,65,1000,2^16,2^32,2^64-1,2^64,2^256-1} under two memory shapes on Frontier/Byzantium/Shanghai/Cancun; kind jp = Aspect-bound call trees (real WASM Aspects incl. trapping and gas-exhausting ones) with a provider failure injected at a join-point firing. " +
 			"Oracles: no Go panic escapes an entry point, no worker dies; afterwards CallTree().Current()==nil, call depth 0, static flag clear, and a follow-up top-level call on the same EVM is announced to the debug tracer as a depth-0 Start; a read-cap sentinel (2^16 state reads in one instruction) turns unbounded loops into attributable findings; distinct_nontrivial = distinct (input class, fork, outcome) event shapes",
 		Assumptions: []string{"host initialised as an embedding chain does (chain config, block context with block number, provider, context callbacks)", "crashes needing one specific 256-bit value outside the boundary sets and random draws are not found"},
 		Cases:       func(seed uint64, tier string) []Case { return hostileCases(seed, tier, 0xC03) },
